@@ -71,10 +71,27 @@ def main():
                 ok = False
                 print(out[-1500:])
             rows.append((sid, meta['property'], own, meta.get('summary', '')[:150].replace('\n', ' '), ', '.join(keys[:3])))
-    with open(os.path.join(ROOT, 'seeded', 'RESULTS.md'), 'w') as f:
+    rp = os.path.join(ROOT, 'seeded', 'RESULTS.md')
+    if only and os.path.exists(rp):
+        # a partial run updates the rows of the seeds it ran and keeps the others
+        done = {r[0] for r in rows}
+        for ln in open(rp):
+            cells = [c.strip() for c in ln.strip().strip('|').split(' | ')]
+            if len(cells) == 5 and cells[0][:1] == 'C' and cells[0] not in done:
+                rows.append(tuple(cells))
+
+        def skey(r):
+            a, b = r[0].split('-')
+            return (a, int(b))
+        rows.sort(key=skey)
+    with open(rp, 'w') as f:
         f.write('# Seeded changes and the checks that catch them (tier %s)\n\n| seed | property | own check | change | violation keys |\n|---|---|---|---|---|\n' % tier)
         for r in rows:
             f.write('| %s | %s | %s | %s | %s |\n' % r)
+        f.write('\nNot detected, on purpose (see DESIGN.md section 6): C07-5 (a target that contains itself - outside the generators\' finite '
+                'values), C12-12 (differs from the original only after a content change that leaves every modification time unchanged), '
+                'C12-16 (needs the constructor\'s rules= argument, not among the enforcer options C12 quantifies over), C15-10 (a race '
+                'with the first entry-point scan of the process - C15 quantifies over expressions, not start-up schedules).\n')
     return 0 if ok else 1
 
 
